@@ -15,10 +15,11 @@ from vlib.rec import REC
 
 ID = "C06"
 LEVEL = "exploration"
-DECIDING = ["C06.volumes", "C06.borders", "C06.distances"]
+DECIDING = ["C06.volumes", "C06.borders", "C06.distances", "C06.order_points"]
 RULE = ("Cartesian position grids: direction algorithm in {ico, cube3D, randomS}, quick ~60 (N, radii) configurations incl. ico_42, cube3D_26 "
         "(centrally symmetric faces), thin-shell radial grids (spacing 1e-3 of the radius) and the small non-surrounding sets; thorough every N in 4..60 x 6 radial grids (1-4 radii, equal and unequal "
-        "increments). The three getters (+ adjacency) are called on each object. Non-trivial = direction set surrounding the origin with >=2 "
+        "increments); 16 (160) seed-dependent configurations with N up to 200, 2-4 shells and the flag passed as True / np.True_ / 1 / a numpy comparison result / a 0-d array; "
+        "order_points itself is monitored (cyclic order of every planar convex face it is given, also inside the grid runs) and called directly on 1500 (20000) hostile polygons per shard. The three getters (+ adjacency) are called on each object. Non-trivial = direction set surrounding the origin with >=2 "
         "shells; distinct by (algorithm, N, radial text)")
 ASSUMPTIONS = ["coplanar direction sets are outside the quantifier (skipped, counted)", "areas/volumes compared at rtol 1e-6, distances 1e-10",
                "the qhull-based oracle numbers are cross-checked per grid against pure half-plane clipping on sampled faces",
@@ -159,8 +160,99 @@ def cartesian_distances_are_euclidean(self, result):
     return _pairs(self, result, "distances")
 
 
+def _plane_coordinates(P):
+    """own plane fit: centroid + two in-plane axes from the SVD; -> (2-D coordinates, out-of-plane residual, in-plane size)"""
+    c = P.mean(axis=0)
+    u, sv, vt = np.linalg.svd(P - c)
+    return (P - c) @ vt[:2].T, (sv[2] if len(sv) > 2 else 0.0), sv[0]
+
+
+def _hull_order(Y, margin):
+    """indices of the points of Y (n,2) in counter-clockwise hull order when every point is a clear hull vertex, else None"""
+    n = len(Y)
+    c = Y.mean(axis=0)
+    ang = np.arctan2(Y[:, 1] - c[1], Y[:, 0] - c[0])     # the centroid of points in convex position is strictly inside
+    order = np.argsort(ang)
+    for k in range(n):
+        a, b, d = Y[order[k - 1]], Y[order[k]], Y[order[(k + 1) % n]]
+        cr = (b[0] - a[0]) * (d[1] - b[1]) - (b[1] - a[1]) * (d[0] - b[0])
+        if cr <= margin * np.linalg.norm(b - a) * np.linalg.norm(d - b):
+            return None           # not convex position, or a vertex too close to the line through its neighbours to call
+    return order
+
+
+def ordered_points_go_round_the_polygon(polygon_points_3d, result):
+    """order_points on a planar polygon in convex position: the answer is the same rows in cyclic order (either sense, any start)"""
+    mon = "C06.order_points"
+    try:
+        P = np.asarray(polygon_points_3d, dtype=float)
+        if P.ndim != 2 or P.shape[1] != 3 or len(P) < 4:
+            REC.skip(mon, "fewer than four vertices (every order is cyclic)")
+            return True
+        Y, resid, size = _plane_coordinates(P)
+        if not (size > 0) or resid > 1e-9 * size:
+            REC.skip(mon, "vertices not coplanar")
+            return True
+        gaps = np.linalg.norm(Y[:, None, :] - Y[None, :, :], axis=2) + np.eye(len(Y)) * size
+        if gaps.min() < 1e-7 * size:
+            REC.ambiguous(mon, "nearly coincident vertices")
+            return True
+        order = _hull_order(Y, 1e-7)
+        if order is None:
+            REC.ambiguous(mon, "vertices not clearly in convex position")
+            return True
+        R = np.asarray(result, dtype=float)
+        ok = R.shape == P.shape
+        if ok:
+            idx = []
+            for row in R:
+                hit = np.flatnonzero(np.all(P == row, axis=1))
+                if len(hit) != 1:
+                    ok = False
+                    break
+                idx.append(int(hit[0]))
+        if ok:
+            ok = sorted(idx) == list(range(len(P)))
+        if ok:
+            pos = {int(v): k for k, v in enumerate(order)}
+            steps = {(pos[idx[(k + 1) % len(idx)]] - pos[idx[k]]) % len(idx) for k in range(len(idx))}
+            ok = steps in ({1}, {len(idx) - 1})
+        REC.check(mon, ok, lambda: {"vertices": P, "returned": R, "convex_order_of_input_rows": order})
+    except Exception as ex:
+        REC.crashed("C06.oracle_error", ex)
+    return True
+
+
+def drive_polygons(rng, nprng, count):
+    """order_points called directly on hostile faces: 4-14 vertices on ellipses of aspect ratio up to 1000 with clustered angles, on planes
+    tilted against every axis, far from the origin, at picometre to micrometre scale, rows shuffled"""
+    from molgri.space import utils
+    for _ in range(count):
+        n = rng.randint(4, 14)
+        if rng.random() < 0.5:
+            ang = np.sort(nprng.uniform(0, 2 * np.pi, size=n))
+        else:   # clusters: most vertices crowd into one or two short arcs
+            centres = nprng.uniform(0, 2 * np.pi, size=rng.randint(1, 2))
+            ang = np.concatenate([nprng.choice(centres, size=n - 2) + nprng.normal(0, 0.15, size=n - 2), nprng.uniform(0, 2 * np.pi, size=2)])
+        aspect = 10 ** rng.uniform(0, 3) if rng.random() < 0.5 else 1.0
+        Y = np.column_stack([np.cos(ang) * aspect, np.sin(ang)])
+        q = nprng.normal(size=(3, 3))
+        Q, _ = np.linalg.qr(q)
+        scale = 10 ** rng.uniform(-3, 3)
+        P = (Y @ Q[:2]) * scale + nprng.normal(size=3) * scale * rng.choice([0, 1, 30])
+        nprng.shuffle(P)
+        REC.begin_case({"polygon": P}, cls=["order_points direct"])
+        try:
+            utils.order_points(P)
+        except Exception as ex:
+            REC.crashed("C06.call_raised", ex)
+
+
 def install():
     from molgri.space.fullgrid import PositionGrid
+    from molgri.space import utils
+    import molgri.space.fullgrid  # noqa: F401  (holds an alias of order_points that must be re-bound)
+    attach.ensure(utils, "order_points", ordered_points_go_round_the_polygon)
     attach.ensure(PositionGrid, "get_all_position_volumes", cartesian_volumes_are_voronoi_volumes)
     attach.ensure(PositionGrid, "get_borders_of_position_grid", cartesian_borders_are_face_areas)
     attach.ensure(PositionGrid, "get_distances_of_position_grid", cartesian_distances_are_euclidean)
@@ -178,10 +270,13 @@ def oracle_selftest(e, rng):
             REC.harness_problem("C06 oracle: qhull face area disagrees with half-plane clipping", {"pair": list(k), "qhull": e["face"][k], "clipping": a})
 
 
-def drive(PositionGrid, alg, N, text, rng):
-    REC.begin_case({"o": f"{alg}_{N}", "t": text}, cls=[f"alg={alg}"], sample=(N in (12, 26)))
+FLAGS = {"True": True, "np.True_": np.True_, "1": 1, "np.bool_ from a comparison": np.array([3.0]).max() > 2, "0-d array": np.array(True)}
+
+
+def drive(PositionGrid, alg, N, text, rng, flag="True"):
+    REC.begin_case({"o": f"{alg}_{N}", "t": text, "flag": flag}, cls=[f"alg={alg}", f"flag={flag}"], sample=(N in (12, 26)))
     try:
-        pg = PositionGrid(o_grid_name=f"{alg}_{N}", t_grid_name=text, position_grid_cartesian=True)
+        pg = PositionGrid(o_grid_name=f"{alg}_{N}", t_grid_name=text, position_grid_cartesian=FLAGS[flag])
         before = sum(REC.monitors[m]["calls"] + REC.monitors[m]["skipped"] for m in DECIDING)
         calls = [pg.get_all_position_volumes, pg.get_borders_of_position_grid, pg.get_distances_of_position_grid, pg.get_adjacency_of_position_grid]
         rng.shuffle(calls)
@@ -239,22 +334,48 @@ def configs(tier):
     return out
 
 
+def random_configs(tier, seed):
+    """seed-dependent part: other N (also the 100-200 range where cube3D grids have irregular eight-cornered faces), radial grids with
+    three and more shells, and the truthy spellings of the flag a caller may hand over"""
+    rng = random.Random(seed * 9176 + 11)
+    out = []
+    for _ in range(16 if tier == "quick" else 160):
+        alg = rng.choice(["ico", "cube3D", "cube3D", "randomS"])
+        N = rng.choice([rng.randint(4, 60), rng.randint(61, 120), rng.randint(121, 200)])
+        T = rng.randint(2, 4)
+        r = [rng.randint(5, 150) / 100]
+        for _ in range(T - 1):
+            r.append(round(r[-1] + rng.choice([0.05, 0.1, 0.1, 0.25, 1.0]), 4))
+        out.append((alg, N, "[" + ", ".join(str(x) for x in r) + "]", rng.choice(list(FLAGS))))
+    return out
+
+
 def shards(tier, seed):
     nsh = 12 if tier == "quick" else 32
-    return [{"nshards": nsh, "shard": i} for i in range(nsh)]
+    return [{"nshards": nsh, "shard": i, "seed": seed} for i in range(nsh)]
 
 
 def run_shard(spec):
     geom3.install()
     PositionGrid = install()
     rng = random.Random(spec.get("seed", 0) * 100 + spec["shard"])
+    nprng = np.random.default_rng(spec.get("seed", 0) * 100 + spec["shard"])
+    drive_polygons(rng, nprng, 1500 if spec["tier"] == "quick" else 20000)
     for k, (alg, N, t) in enumerate(configs(spec["tier"])):
         if k % spec["nshards"] == spec["shard"]:
             drive(PositionGrid, alg, N, t, rng)
+    for k, (alg, N, t, flag) in enumerate(random_configs(spec["tier"], spec.get("seed", 0))):
+        if k % spec["nshards"] == spec["shard"]:
+            drive(PositionGrid, alg, N, t, rng, flag)
 
 
 def replay(case):
     geom3.install()
     PositionGrid = install()
+    if "polygon" in case:
+        from molgri.space import utils
+        REC.begin_case(case)
+        utils.order_points(np.array(case["polygon"], dtype=float))
+        return
     alg, N = case["o"].split("_")
-    drive(PositionGrid, alg, int(N), case["t"], random.Random(0))
+    drive(PositionGrid, alg, int(N), case["t"], random.Random(0), case.get("flag", "True"))
